@@ -273,6 +273,29 @@ func loadKnownHandlers(outDir string) {
 	}
 }
 
+var pendingDriverConsts string
+
+// loadBaselineConsts: field := value lines of the committed baseline copy of Generated/Cycles.lean (first record only)
+func loadBaselineConsts(outDir string) map[string]uint64 {
+	res := map[string]uint64{}
+	data, err := os.ReadFile(filepath.Join(outDir, "..", "..", "baseline", "Generated", "Cycles.lean"))
+	if err != nil {
+		return res
+	}
+	for _, line := range strings.Split(string(data), "\n") {
+		if strings.HasPrefix(line, "def driverConsts") {
+			break
+		}
+		f := strings.Fields(line)
+		if len(f) >= 3 && f[1] == ":=" {
+			if v, err := strconv.ParseUint(f[2], 10, 64); err == nil {
+				res[f[0]] = v
+			}
+		}
+	}
+	return res
+}
+
 // loadKnownConsts: the fields of Verif.CycleConsts (Verif/Impl/Consts.lean); nil when unreadable
 func loadKnownConsts(outDir string) map[string]bool {
 	data, err := os.ReadFile(filepath.Join(outDir, "..", "Impl", "Consts.lean"))
@@ -522,9 +545,36 @@ func doCpu(repo, outDir string) {
 		for _, f := range missing {
 			fmt.Fprintf(&b, "  %s := 999999  -- NOT FOUND in the source\n", f)
 		}
+		// the record the DRIVER runs the program-level streams with: the literal found in the source, or — where none was
+		// found — the literal of the committed baseline (so that a restructured function does not make the executable
+		// model of the other properties report nonsense cycle counts; the obligation about the literals uses `consts`)
+		base := loadBaselineConsts(outDir)
+		var d strings.Builder
+		d.WriteString("\n/-- `consts` with the baseline literal wherever the source's was not found (driver only) -/\ndef driverConsts : CycleConsts where\n")
+		driverOk := true
+		for _, n := range names {
+			for i, r := range rets[n] {
+				field := fmt.Sprintf("%s_%d", n, i)
+				if knownConsts != nil && !knownConsts[field] {
+					continue
+				}
+				fmt.Fprintf(&d, "  %s := %d\n", field, r.lit)
+			}
+		}
+		for _, f := range missing {
+			v, have := base[f]
+			if !have {
+				driverOk = false
+				v = 999999
+			}
+			fmt.Fprintf(&d, "  %s := %d  -- baseline\n", f, v)
+		}
+		_ = driverOk
+		pendingDriverConsts = d.String()
 		if len(skipped) > 0 {
 			b.WriteString("\n-- not part of the model: " + strings.Join(skipped, ", ") + "\n")
 		}
+		b.WriteString(pendingDriverConsts)
 		b.WriteString("\nend Verif.Generated\n")
 		writeIfChanged(filepath.Join(outDir, "Cycles.lean"), b.String())
 		ds := []string{}
